@@ -6,7 +6,10 @@
 #include <cerrno>
 #include <cstring>
 #include <dirent.h>
+#include <cstdarg>
+#include <cstdio>
 #include <dlfcn.h>
+#include <fcntl.h>
 #include <sys/stat.h>
 #include <sys/types.h>
 #include <sys/uio.h>
@@ -173,6 +176,64 @@ ssize_t readv(int fd, const struct iovec* iov, int cnt) {
 		}
 	}
 	return f(fd, iov, cnt);
+}
+
+// ---- path trace: which paths does a library call create, rewrite, rename or remove? (observation only, nothing is changed) ----
+static void notePath(const char* path) {
+	if (!g_fault.armed || !path || g_fault.touchedCount >= sim::FaultCfg::kMaxTouched) return;
+	for (int i = 0; i < g_fault.touchedCount; ++i) if (strncmp(g_fault.touched[i], path, sizeof g_fault.touched[0] - 1) == 0) return;
+	strncpy(g_fault.touched[g_fault.touchedCount], path, sizeof g_fault.touched[0] - 1);
+	g_fault.touched[g_fault.touchedCount][sizeof g_fault.touched[0] - 1] = 0;
+	++g_fault.touchedCount;
+}
+static bool writeMode(const char* mode) { return mode && (strchr(mode, 'w') || strchr(mode, 'a') || strchr(mode, '+')); }
+
+FILE* fopen64(const char* path, const char* mode) {
+	typedef FILE* (*fn)(const char*, const char*);
+	static fn f = real<fn>("fopen64");
+	if (writeMode(mode)) notePath(path);
+	return f(path, mode);
+}
+FILE* fopen(const char* path, const char* mode) {
+	typedef FILE* (*fn)(const char*, const char*);
+	static fn f = real<fn>("fopen");
+	if (writeMode(mode)) notePath(path);
+	return f(path, mode);
+}
+int open64(const char* path, int flags, ...) {
+	typedef int (*fn)(const char*, int, ...);
+	static fn f = real<fn>("open64");
+	mode_t mode = 0;
+	if (flags & (O_CREAT | O_TMPFILE)) { va_list ap; va_start(ap, flags); mode = static_cast<mode_t>(va_arg(ap, int)); va_end(ap); }
+	if ((flags & (O_WRONLY | O_RDWR | O_CREAT | O_TRUNC)) != 0) notePath(path);
+	return f(path, flags, mode);
+}
+int open(const char* path, int flags, ...) {
+	typedef int (*fn)(const char*, int, ...);
+	static fn f = real<fn>("open");
+	mode_t mode = 0;
+	if (flags & (O_CREAT | O_TMPFILE)) { va_list ap; va_start(ap, flags); mode = static_cast<mode_t>(va_arg(ap, int)); va_end(ap); }
+	if ((flags & (O_WRONLY | O_RDWR | O_CREAT | O_TRUNC)) != 0) notePath(path);
+	return f(path, flags, mode);
+}
+int rename(const char* from, const char* to) {
+	typedef int (*fn)(const char*, const char*);
+	static fn f = real<fn>("rename");
+	notePath(from);
+	notePath(to);
+	return f(from, to);
+}
+int unlink(const char* path) {
+	typedef int (*fn)(const char*);
+	static fn f = real<fn>("unlink");
+	notePath(path);
+	return f(path);
+}
+int remove(const char* path) {
+	typedef int (*fn)(const char*);
+	static fn f = real<fn>("remove");
+	notePath(path);
+	return f(path);
 }
 
 struct dirent* readdir(DIR* d) {
